@@ -310,7 +310,8 @@ fn expand_args_in_tokens(tokens: &mut types::Tokens, args: &[String]) {
     let mut buff = Vec::new();
 
     for (sep, token) in tokens.iter() {
-        if sep == "`" || sep == "'" || !is_args_in_token(token) {
+        // (a word tagged `\\` starts with an escaped `$`: `\$1` is literal text)
+        if sep == "`" || sep == "'" || sep == "\\" || !is_args_in_token(token) {
             idx += 1;
             continue;
         }
